@@ -31,12 +31,13 @@ class Unsupported(Exception):
 
 
 class Obligation:
-    __slots__ = ("name", "kind", "func", "line", "pc", "goal", "path", "text", "observables", "prop_tags")
+    __slots__ = ("name", "kind", "func", "line", "pc", "goal", "path", "text", "observables", "prop_tags", "split_terms")
 
     def __init__(self, name, kind, func, line, pc, goal, path, text="", observables=None):
         self.name, self.kind, self.func, self.line = name, kind, func, line
         self.pc, self.goal, self.path, self.text = list(pc), goal, path, text
         self.observables = observables or {}
+        self.split_terms = []
 
 
 EXC_PARENTS = {
@@ -146,6 +147,7 @@ class Ctx:
         from .expr import RD_HINTS
         ob = Obligation(name, kind, self.funcname, line, st.pc, goal, path, text)
         ob.observables = list(RD_HINTS.values())
+        ob.split_terms = list(getattr(self, "split_terms", []) or [])
         self.obligations.append(ob)
 
     def feasible(self, pc):
